@@ -272,6 +272,9 @@ fn check_split(ctx: &mut Ctx, c: &SplitCase) -> Res {
 
 #[derive(Debug, Clone, Serialize, Deserialize)]
 pub struct TrafficCase {
+    /// number of TCP health-check connections made (0 = no health port configured)
+    #[serde(default)]
+    pub health_checks: u8,
     pub seed: Hex,
     pub batch_size: u8,
     pub stats: bool,
@@ -280,12 +283,45 @@ pub struct TrafficCase {
 
 fn check_traffic(ctx: &mut Ctx, c: &TrafficCase) -> Res {
     ctx.eval();
-    let cfg = LabCfg { seed: c.seed.0.clone(), batch_size: c.batch_size, client_stats: c.stats, ..Default::default() };
+    // a free TCP port for the health check (the worker runs in its own network namespace, so any port is ours)
+    let hc_port = if c.health_checks > 0 { std::net::TcpListener::bind("127.0.0.1:0").ok().and_then(|l| l.local_addr().ok()).map(|a| a.port()) } else { None };
+    let cfg = LabCfg { seed: c.seed.0.clone(), batch_size: c.batch_size, client_stats: c.stats, health_port: hc_port, ..Default::default() };
     let mut lab = match Lab::new(cfg, 16) {
         Ok(l) => l,
         Err(e) => return ctx.fail("server-new-failed", e),
     };
     let (mut datagrams, mut classic, mut ietf, mut bytes) = (0u64, 0u64, 0u64, 0u64);
+    let mut health_done = 0u64;
+    if let Some(port) = hc_port {
+        use std::io::Read;
+        for _ in 0..c.health_checks {
+            // connect (completes in the kernel's accept queue), let the server handle it, read the fixed response
+            let mut st = match std::net::TcpStream::connect(("127.0.0.1", port)) {
+                Ok(s) => s,
+                Err(e) => return ctx.fail("health-connect-failed", e.to_string()),
+            };
+            let res = match lab.step(&[], 0) {
+                Ok(r) => r,
+                Err(p) => return ctx.fail("health-step-failed", format!("{:?}", p)),
+            };
+            datagrams += 1; // the sentinel of that step
+            for r in res.sentinel_replies.iter() {
+                if r.len() >= 8 && &r[0..8] == b"ROUGHTIM" {
+                    ietf += 1
+                } else {
+                    classic += 1
+                }
+                bytes += r.len() as u64;
+            }
+            st.set_read_timeout(Some(Duration::from_secs(2))).unwrap();
+            let mut got = Vec::new();
+            let _ = st.read_to_end(&mut got);
+            if got != b"HTTP/1.1 200 OK\nContent-Length: 0\nConnection: close\n\n" {
+                return ctx.fail("health-response-differs", format!("read {:?}", String::from_utf8_lossy(&got)));
+            }
+            health_done += 1;
+        }
+    }
     for step in &c.steps {
         let sent = materialize(&lab, step, 16);
         let sends: Vec<(usize, Vec<u8>)> = sent.iter().map(|s| (s.sock, s.bytes.clone())).collect();
@@ -308,7 +344,7 @@ fn check_traffic(ctx: &mut Ctx, c: &TrafficCase) -> Res {
     let st = lab.server.verif_stats();
     let got = totals(st);
     // every accepted request is answered exactly once (C09), so replies observed == requests accepted
-    let want = [classic + ietf, ietf, classic, datagrams - classic - ietf, 0, 0, 0, classic + ietf, ietf, classic, bytes];
+    let want = [classic + ietf, ietf, classic, datagrams - classic - ietf, health_done, 0, 0, classic + ietf, ietf, classic, bytes];
     if got != want {
         return ctx.fail(
             "recorded-totals-differ-from-traffic",
@@ -322,7 +358,7 @@ fn check_traffic(ctx: &mut Ctx, c: &TrafficCase) -> Res {
         // all traffic came from 127.0.0.1
         let lo: IpAddr = "127.0.0.1".parse().unwrap();
         let per = counters(st.stats_for_client(&lo));
-        if per[0] != ietf || per[1] != classic || per[8] != bytes || st.total_unique_clients() != 1 {
+        if per[0] != ietf || per[1] != classic || per[5] != health_done || per[8] != bytes || st.total_unique_clients() != 1 {
             return ctx.fail("per-client-entry-differs-from-traffic", format!("entry for 127.0.0.1 = {:?}, unique clients {}", per, st.total_unique_clients()));
         }
     }
@@ -388,7 +424,7 @@ pub fn run(ctx: &mut Ctx) -> Vec<Violation> {
     out.extend(run_prop(ctx, "worker-splits-csv", t.pick(400, 8_000), 200, split_csv, |ctx, c| check_split(ctx, c)));
     // traffic served by an in-process server
     let step = vec_of((0u8..16, prop_oneof![3 => std_req().prop_map(Dgram::Std), 2 => any_dgram()]).prop_map(|(sock, d)| Send { sock, d }).boxed(), 0usize..=40);
-    let traffic = (seed32(), prop::sample::select(vec![1u8, 3, 16, 64]), prop::bool::weighted(0.15), proptest::collection::vec(step, 1..=3)).prop_map(|(seed, batch_size, stats, steps)| TrafficCase { seed, batch_size, stats, steps });
+    let traffic = (seed32(), prop::sample::select(vec![1u8, 3, 16, 64]), prop::bool::weighted(0.15), proptest::collection::vec(step, 1..=3), prop_oneof![3 => Just(0u8), 1 => 1u8..=4]).prop_map(|(seed, batch_size, stats, steps, health_checks)| TrafficCase { health_checks, seed, batch_size, stats, steps });
     out.extend(run_prop(ctx, "traffic", t.pick(8_000, 64_000), 200, traffic, |ctx, c| {
         ctx.sample("traffic", 1, &(c.stats, c.batch_size, c.steps.iter().map(|s| s.len()).collect::<Vec<_>>()));
         check_traffic(ctx, c)
